@@ -4,6 +4,7 @@ from __future__ import annotations
 
 import io
 import pickle
+import os
 import random
 
 import numpy as np
@@ -44,6 +45,18 @@ def gen_schema(rng: random.Random, max_fields=4, types=None):
     names = rng.sample(FIELD_NAMES, k)
     types = types or list(TYPES)
     return [(n, rng.choice(types)) for n in names]
+
+
+RESERVED_LOOKING = ["index", "level_0", "_index"]
+
+
+def spice_names(rng: random.Random, schema, p=0.12):
+    """now and then one field carries a name pandas itself likes to use (reset_index / unnamed index): legal for a field"""
+    if schema and rng.random() < p:
+        k = rng.randrange(len(schema))
+        schema = list(schema)
+        schema[k] = (rng.choice(RESERVED_LOOKING), schema[k][1])
+    return schema
 
 
 def gen_rows(rng: random.Random, schema, nrows: int, max_len=5, missing_p=0.2, empty_p=0.2, null_p=0.15):
@@ -116,6 +129,8 @@ def pad_rows(rng, schema, k):
 
 LAYOUTS = ["fresh", "split_fresh", "split_view", "sliced", "take", "filter", "concat_slices",
            "missing_empty", "missing_hidden", "pickle", "empty_chunks", "sliced_chunks", "mixed_bases"]
+if os.environ.get("VERIF_ONLY_LAYOUT"):      # development aid: exercise one layout recipe only
+    LAYOUTS = [os.environ["VERIF_ONLY_LAYOUT"], "missing_hidden"]
 
 
 def make_layout(rng: random.Random, schema, rows, recipe: str) -> pa.ChunkedArray:
@@ -184,6 +199,27 @@ def make_layout(rng: random.Random, schema, rows, recipe: str) -> pa.ChunkedArra
             arrays.append(whole.slice(len(pre), n))
         mask = pa.array([r is None for r in rows], type=pa.bool_())
         return pa.chunked_array([pa.StructArray.from_arrays(arrays, names=[nm for nm, _ in schema], mask=mask)], type=st)
+    if recipe == "empty_as_null":
+        # an EMPTY row stored as a present row of NULL lists (in some or all fields); Arrow arrays handed to the constructor
+        # may look like this (pa.array([{'a': None, 'b': None}]))
+        if n == 0:
+            return pa.chunked_array([build_chunk(rng, schema, rows)], type=st)
+        pre = pad_rows(rng, schema, rng.randint(0, 2))
+        allrows = pre + rows
+        arrays = []
+        for name, t in schema:
+            lists = []
+            for r in allrows:
+                if r is None:
+                    lists.append(None)
+                elif len(r[name]) == 0 and rng.random() < 0.7:
+                    lists.append(None)
+                else:
+                    lists.append(r[name])
+            arrays.append(pa.array(lists, type=pa.list_(TYPES[t])))
+        mask = pa.array([r is None for r in allrows], type=pa.bool_())
+        whole = pa.StructArray.from_arrays(arrays, names=[nm for nm, _ in schema], mask=mask)
+        return pa.chunked_array([whole.slice(len(pre), n)], type=st)
     if recipe == "missing_empty":
         return pa.chunked_array([build_chunk(rng, schema, rows, "empty")], type=st)
     if recipe == "missing_hidden":
